@@ -85,7 +85,9 @@ func (state *singleRateLimitState) ensureWindowIsUpdated() {
 	currentWindowEndTime := currentWindowStartTime.Add(state.windowData.WindowSize)
 
 	// We make sure that state's window is is correct accordingly
-	if currentTime.After(state.windowEndTime) {
+	// A window is [start, end): a request arriving exactly at the stored end
+	// already belongs to the next window.
+	if !currentTime.Before(state.windowEndTime) {
 		// update spillover when window is over & not at the first check
 		if state.windowData.SpilloverEnabled && state.windowEndTime != epochTime {
 			if currentTime.Day() == state.windowData.SpilloverRenewOnDay {
